@@ -200,7 +200,8 @@ unsafe fn tracked_free(i: usize, layout: Layout, code: u32) {
 unsafe impl GlobalAlloc for SimAlloc {
     #[inline]
     unsafe fn alloc(&self, layout: Layout) -> *mut u8 {
-        if in_lib() && ST.with(|s| s.enabled.get()) {
+        let unwinding_in_step = !in_lib() && crate::registry::in_step() && std::thread::panicking();
+        if (in_lib() || unwinding_in_step) && ST.with(|s| s.enabled.get()) {
             // Tracked (table, guards, fill) in every case. Only requests made while the thread is
             // not unwinding count as "the library allocated" for the no-heap check of stack-backed
             // vectors: the panic runtime boxes its payload while `panicking()` is already true.
